@@ -366,6 +366,7 @@ func checkProperty(p *Program, prop, tier string, timeoutS, workers int, start t
 	runDir := filepath.Join(p.verif, ".cache", "run-"+prop)
 	os.RemoveAll(runDir)
 	sv := newSolver(runDir, timeoutS, tier == "thorough")
+	sv.retry = true
 	if tier != "thorough" && os.Getenv("GOVC_CACHE") == "1" {
 		sv.useCache = true
 		sv.cacheDir = filepath.Join(p.verif, ".cache", "results")
